@@ -35,6 +35,8 @@ StartsOf(d, ch) == LET RECURSIVE F(_, _)
                        F(i, acc) == IF i > Len(d) THEN <<acc>> ELSE <<acc>> \o F(i + 1, acc + Dur(T, d, ch, i))
                    IN F(1, 0)
 
+Strip(e) == <<e[2], e[4], e[5], e[6], e[7], e[8]>>          \* tick, kind, channel, data, payload: no track, no delta
+
 \* ------------------------------------------------------------------ C01
 C01Ok == LET d == Eff(R.doc, R.flags)  cidx == ChordIdxOf(d)  runs == Runs(SelectSeq2(R.ev, IsNote)) IN
          /\ WellFormedInput(d)                \* the driver generated what it claims
@@ -53,19 +55,23 @@ ReleaseBeforeStrike(notes) ==
     \A a \in 1..Len(s) : IsOn(s[a]) =>
        \A b \in (a + 1)..Len(s) : ~(IsOff(s[b]) /\ s[a][2] = s[b][2] /\ s[a][5] = s[b][5] /\ s[a][6] = s[b][6])
 NoZeroChord(d) == \A i \in 1..Len(d) : d[i].rest \/ Lo(T, d[i]) > 0
-C02Ok == LET d == Eff(R.doc, R.flags)  cidx == ChordIdxOf(d)  notes == SelectSeq2(R.ev, IsNote)  runs == Runs(notes) IN
-         /\ R.tracks = 1 /\ R.ok /\ RunsShape(runs, cidx) /\ NoZeroChord(d)
+\* the timing law is stated on the single-track rendering; for N > 1 the note events, merged, must be the same
+C02Ok == LET d == Eff(R.doc, R.flags)  cidx == ChordIdxOf(d)
+             single == IF R.tracks = 1 THEN R.ev ELSE R.ev1
+             notes == SelectSeq2(single, IsNote)  runs == Runs(notes) IN
+         /\ R.ok /\ R.ok1 /\ RunsShape(runs, cidx) /\ NoZeroChord(d)
          /\ \E ch \in Choices(T, d) : LET st == StartsOf(d, ch) IN
               \A k \in 1..Len(cidx) :
                  LET i == cidx[k]  ons == runs[2 * k - 1]  offs == runs[2 * k] IN
                  /\ Ticks(ons) = {st[i]}                 \* all strikes at the instance start (first instance at 0)
                  /\ Ticks(offs) = {st[i + 1]}            \* all releases at its end = start of the next instance
                  /\ BagOfSeq(Keys(offs)) = BagOfSeq(Keys(ons))
-         /\ ReleaseBeforeStrike(notes)
+         /\ ReleaseBeforeStrike(SelectSeq2(R.ev, IsNote))
+         /\ (R.tracks > 1 => LET a == SelectSeq2(R.ev, IsNote) IN
+                               BagOfSeq([j \in 1..Len(a) |-> Strip(a[j])]) = BagOfSeq([j \in 1..Len(notes) |-> Strip(notes[j])]))
 C02Inv == Applies => C02Ok
 
 \* ------------------------------------------------------------------ C06
-Strip(e) == <<e[2], e[4], e[5], e[6], e[7], e[8]>>          \* tick, kind, channel, data, payload: no track, no delta
 Merged(ev) == LET s == SelectSeq2(ev, LAMBDA e : ~IsEOT(e)) IN BagOfSeq([j \in 1..Len(s) |-> Strip(s[j])])
 C06Ok == LET d == Eff(R.doc, R.flags)  eots == SelectSeq2(R.ev, IsEOT)  eots1 == SelectSeq2(R.ev1, IsEOT) IN
          /\ R.ok /\ R.ok1
